@@ -304,7 +304,10 @@ HISTORIES = [None, "used_buffer_array", "used_buffer_frame", "scorer_prefit_wide
              # order (reversed, rotated), or the same series with a block of interior rows revised (recalibration, imputed gap)
              "predicted_on_reversed", "predicted_on_rotated", "predicted_on_revised",
              # the detector was constructed with other settings, used on a series of the same length and re-configured with set_params
-             "reconfigured"]
+             "reconfigured",
+             # the scorer object handed to the detector was configured differently when the detector was constructed and was set
+             # to its final configuration afterwards, through the user's own handle (scorer.set_params)
+             "scorer_handle_reconfigured"]
 
 
 def reconfigured(spec, X):
@@ -334,6 +337,49 @@ def reconfigured(spec, X):
     except (ValueError, RuntimeError):
         pass
     det.set_params(**{k_: build(v_) for k_, v_ in changed.items()})
+    return det
+
+
+SCORER_KEY = {"PELT": "cost", "MovingWindow": "change_score", "SeededBinarySegmentation": "change_score",
+              "CircularBinarySegmentation": "anomaly_score", "CAPA": "collective_saving", "MVCAPA": "collective_saving"}
+_ALT_PARAM = {"L2Cost": 1.5, "GaussianVarCost": (0.5, 2.0), "GaussianCovCost": (0.5, 2.0)}
+
+
+def detour_handle(target):
+    """For a freshly built scorer `target`: (handle, finish, applicable). `handle` is an object of the same class in another
+    valid configuration (another fixed parameter of a built-in cost, another inner cost of a ChangeScore / LocalAnomalyScore /
+    Saving); `finish()` re-configures it to the configuration of `target` through handle.set_params - to be called after the
+    detector was constructed around `handle`. get_params() of the detector then shows the final configuration."""
+    name = type(target).__name__
+    params = target.get_params(deep=False)
+    alt = None
+    if name in _ALT_PARAM:
+        alt = {"param": _ALT_PARAM[name]}
+    elif name in ("ChangeScore", "LocalAnomalyScore", "Saving"):
+        key = "baseline_cost" if name == "Saving" else "cost"
+        inner = params[key]
+        if type(inner).__name__ in _ALT_PARAM:
+            alt = {key: type(inner)(param=_ALT_PARAM[type(inner).__name__])}
+        elif name != "Saving":
+            from skchange.costs import L2Cost
+
+            alt = {key: L2Cost()}
+    if alt is None:
+        return target, (lambda: None), False
+    handle = type(target)(**{**params, **alt})
+    return handle, (lambda: handle.set_params(**{k_: params[k_] for k_ in alt})), True
+
+
+def build_with_history(spec, X, history):
+    """The detector of `spec`; for the construction-time histories with that past."""
+    if history == "reconfigured":
+        return reconfigured(spec, X)
+    key = SCORER_KEY.get(spec["cls"])
+    if history != "scorer_handle_reconfigured" or spec.get(key) is None:
+        return build(spec)
+    handle, finish, _ = detour_handle(build(spec[key]))
+    det = registry()[spec["cls"]](**{k_: build(v_) for k_, v_ in spec.items() if k_ not in ("cls", key)}, **{key: handle})
+    finish()
     return det
 
 
